@@ -1383,9 +1383,23 @@ class SymExec:
             if name == 'range' and args and all(is_const(a) and isinstance(a[1], int) for a in args) \
                     and len(range(*[a[1] for a in args])) <= 16:
                 return ListVal([('const', i) for i in range(*[a[1] for a in args])], self.fresh())
-        # ---- methods on known lists
-        if isinstance(func, tuple) and func and func[0] == 'attr':
-            pass
+        # ---- the operator module spells the operators as functions
+        if isinstance(ff, tuple) and ff[:2] == ('ref', 'ext') and ff[2].startswith('operator.') and not kwargs:
+            name = ff[2].split('.', 1)[1]
+            binops = {'add': '+', 'sub': '-', 'mul': '*', 'truediv': '/', 'floordiv': '//', 'mod': '%', 'pow': '**',
+                      'lshift': '<<', 'rshift': '>>', 'or_': '|', 'and_': '&', 'xor': '^', 'concat': '+'}
+            cmps = {'eq': '==', 'ne': '!=', 'lt': '<', 'le': '<=', 'gt': '>', 'ge': '>=', 'is_': 'is', 'is_not': 'is not'}
+            if name in binops and len(args) == 2:
+                return self.binop(binops[name], args[0], args[1], node)
+            if name in cmps and len(args) == 2:
+                return self.compare(cmps[name], args[0], args[1], node)
+            if name == 'contains' and len(args) == 2:
+                return self.compare('in', args[1], args[0], node)
+            if name == 'neg' and len(args) == 1:
+                return ('unop', '-', freeze(args[0]))
+            if name == 'not_' and len(args) == 1:
+                k = self.known_truth(args[0])
+                return ('const', not k) if k is not None else ('not', freeze(args[0]))
         recv = None
         if isinstance(node, ast.Call) and isinstance(node.func, ast.Attribute):
             recv = getattr(self, '_last_recv', None)
